@@ -20,7 +20,7 @@ REQUIRED_MONITORS = ["is_unlabeled", "is_labeled", "unlabeled_indices", "labeled
                      "ExtLabelEncoder.inverse_transform", "C16.round-trip-oracle"]
 SENT = [("str_prefix", "nan", "<U3", ["n", "na", "y"]),      # labels that are prefixes of the (longer) sentinel
         ("nan", np.nan, float, [0.5, 1.0, 2.0]), ("nan32", np.float32("nan"), float, [0.5, 1.0, 2.0]), ("none_num", None, object, [1, 2, 3]),
-        ("none_str", None, object, ["a", "b", "c"]), ("neg1", -1, int, [0, 3, 7]), ("float_s", -1.5, float, [0.0, 1.0, 2.5]),
+        ("none_str", None, object, ["a", "b", "c"]), ("neg1", -1, int, [0, 3, 7]), ("neg1f", -1.0, int, [0, 3, 7]), ("float_s", -1.5, float, [0.0, 1.0, 2.5]),
         ("int99", 99, int, [10, 20, 30]), ("str_s", "zz", "<U2", ["a", "b", "c"]), ("empty", "", "<U2", ["a", "b", "c"])]
 _ready = [False]
 
